@@ -19,6 +19,13 @@ props = {
    "trusted_base": [T_SSA, T_SOLV, T_HTML, T_REPARSE, T_IO, T_RE, T_STR],
    "not_decided": ["how a browser / HTML5 tree builder re-parses the emitted bytes in each container, incl. that CDATA/PI arrive as comment tokens (T3/T4)"],
    "level_text": "Proof for all policies and all token streams: every call of WriteString/Write on the destination inside sanitize carries the obligation emitC01 (the argument is one space under AddSpaceWhenStrippingTag, the serialisation of a text token, of a comment when comments are allowed, of a start/self-closing tag whose name is allowed by name or by pattern, or of an attribute-free end tag of such a name; never a doctype). The main loop is cut by an inductive invariant; matchRegex/allowNoAttrs are proved against functional postconditions (map iteration in arbitrary order)."},
+ "C02": {"title": "Only allowlisted attributes with accepted values reach the output",
+   "runs": [{"fn": SAN + [P+"sanitizeAttrs", "bluemonday.isDataAttribute"], "beh": ""}], "timeout": 20, "min_obligations": 200,
+   "trusted_base": [T_SSA, T_SOLV, T_HTML, T_REPARSE, T_IO, T_RE, T_STR, T_CB,
+      "stable-predicate meta-theorem (DESIGN §2.10): inside a function verified to modify nothing, a predicate that reads the heap only through its (entry-allocated) reference parameters has the same value in every state; it is therefore evaluated in the entry state",
+      "the meaning of styleFiltered (what sanitizeStyles leaves of a style attribute) is C10's; here it is the marker 'went through sanitizeStyles and is non-empty'"],
+   "not_decided": ["the finer shape of data-* names beyond matching ^data-.+ (no upper case, no ';', not data-xml*) is checked by isDataAttribute's regexps but not restated as a postcondition", "values of rewritten attributes (URL positions, rel, target, crossorigin, sandbox) are constrained by C03/C11/C12, here only that a rule exists for the key or the option forces it"],
+   "level_text": "Proof for all policies, elements and attribute lists: sanitizeAttrs ensures every returned attribute is attrGood (admitted by data-*/style/element/element-pattern/global rule with its own value accepted by that rule's pattern, or a key the sanitiser is told to rewrite for which a rule exists, or an attribute it is told to add), carried through all eleven loops by quantified invariants; matchRegex ensures every rule in the merged table stems from a pattern that matches the element; sanitize passes exactly the table the policy resolves (apsFor), serialises exactly the list sanitizeAttrs returned, and never serialises an attribute-less tag unless allowNoAttrs holds."},
  "C05": {"title": "script and style never survive unless AllowUnsafe(true)",
    "runs": [{"fn": SAN, "beh": ""}], "timeout": 15, "min_obligations": 40,
    "trusted_base": [T_SSA, T_SOLV, T_HTML, T_REPARSE, T_IO, T_RE, T_STR, "ground facts normalise(\"script\") == \"script\", normalise(\"style\") == \"style\" (axiom normalise-script; evaluated on the real normaliseElementName by the selftest)"],
